@@ -56,6 +56,8 @@ class Q:
         return float(s.f) ** e
 
     def __float__(s): return float(s.f)
+    def rint(s): return Q(round(s.f))          # numpy's round() on object scalars (Tracker.__repr__)
+    def __round__(s, n=None): return Q(round(s.f, n)) if n is not None else round(s.f)
 
     def __eq__(s, o):
         g = tofrac(o)
